@@ -124,6 +124,8 @@ func propC17(c c17Case) *Outcome {
 				return nil
 			case "add-opt":
 				opts = append(opts, grpc.Header(&sink))
+			case "drop-opts":
+				opts = nil
 			case "rw-method":
 				method = method + "~" + id
 			}
@@ -141,6 +143,8 @@ func propC17(c c17Case) *Outcome {
 				return nil, status.Error(codes.FailedPrecondition, "stopped by "+id)
 			case "add-opt":
 				opts = append(opts, grpc.Header(&sink))
+			case "drop-opts":
+				opts = nil
 			case "rw-method":
 				method = method + "~" + id
 			}
@@ -199,6 +203,8 @@ func propC17(c c17Case) *Outcome {
 			reachesBase, wantCount, stop = false, 1000, true
 		case "add-opt":
 			nopts++
+		case "drop-opts":
+			nopts = 0
 		case "rw-method":
 			method = method + "~" + id
 		}
@@ -305,8 +311,8 @@ func sameStrings(a, b []string) bool {
 func genC17(t *rapid.T) c17Case {
 	c := c17Case{Base: rapid.SampledFrom([]string{"fake", "fake", "inproc", "http", "grpc", "grpc"}).Draw(t, "base"), Stream: rapid.Bool().Draw(t, "stream"), NOpts: rapid.IntRange(0, 2).Draw(t, "nopts")}
 	n := rapid.IntRange(0, 4).Draw(t, "depth")
-	ub := []string{"", "pass", "pass", "pass", "sc-err", "sc-ok", "add-opt", "rw-method"}
-	sb := []string{"", "pass", "pass", "pass", "sc-err", "add-opt", "rw-method"}
+	ub := []string{"", "pass", "pass", "pass", "sc-err", "sc-ok", "add-opt", "drop-opts", "rw-method"}
+	sb := []string{"", "pass", "pass", "pass", "sc-err", "add-opt", "drop-opts", "rw-method"}
 	for i := 0; i < n; i++ {
 		c.Layers = append(c.Layers, c17Layer{Unary: rapid.SampledFrom(ub).Draw(t, "u"), Stream: rapid.SampledFrom(sb).Draw(t, "s")})
 	}
